@@ -431,6 +431,11 @@ pub struct UpdateSpec {
   pub rpc_faults: Vec<RpcFault>,
   pub node_events: Vec<PointEvent>,
   pub disk_fault: Option<DiskFault>,
+  /// another caller of `Index::update` wins the write lock right after the
+  /// n-th mid-batch commit of this update (before its next `begin_write`) and
+  /// runs to completion
+  #[serde(default)]
+  pub competing_update: Option<u32>,
 }
 
 #[derive(Clone, Debug, PartialEq, Eq, Serialize, Deserialize)]
